@@ -324,6 +324,17 @@ def h_gate(symbolic, background):
                 ctx.prove(g in GATE_FIELDS, "listed API %r is a BeaconGate API" % (g,))
                 expanded.add(g)
         ctx.prove(expanded == on, "groups + APIs expand to exactly the enabled flags (%r vs %r)" % (sorted(expanded), sorted(on)))
+        # the API *groups* are part of the decoded value: a completely enabled group is reported by its group name (All when
+        # everything is enabled), not as loose APIs
+        if isinstance(got, list) and expanded == on:
+            if on == set(GATE_FIELDS):
+                ctx.prove(got == ["All"], "all 23 flags -> ['All'] (got %r)" % (got,))
+            else:
+                for gname, members in (("Comms", COMMS), ("Core", CORE), ("Cleanup", CLEANUP)):
+                    if members <= on:
+                        ctx.prove(gname in got and not (set(got) & members), "completely enabled group %s is reported as a group (got %r)" % (gname, got))
+                    else:
+                        ctx.prove(gname not in got, "incomplete group %s is not reported (got %r)" % (gname, got))
     return body
 
 
